@@ -33,6 +33,16 @@ Theorem C11_to_i64_eq_spec : forall d, to_i64 d = i64_spec d.
 Proof. exact to_i64_eq_spec. Qed.
 Print Assumptions C11_to_i64_eq_spec.
 
+(* the prefix parsers behind them (anchor mechanism "to_i64_t sign handling and i64::try_from"; also what the
+   date parser calls): the value of the leading run and the unread rest, for every byte string / every start *)
+Theorem C11_to_i64_t_eq_spec : forall d, to_i64_t d = i64t_spec d.
+Proof. exact to_i64_t_eq_spec. Qed.
+Print Assumptions C11_to_i64_t_eq_spec.
+
+Theorem C11_to_u64_t_eq_spec : forall d start, start < U64_LIM -> to_u64_t d start = u64t_spec d start.
+Proof. exact to_u64_t_eq_spec. Qed.
+Print Assumptions C11_to_u64_t_eq_spec.
+
 Theorem C11_to_bool_eq_spec : forall d, to_bool d = bool_spec d.
 Proof. exact to_bool_eq_spec. Qed.
 Print Assumptions C11_to_bool_eq_spec.
